@@ -34,7 +34,7 @@ def new_path_tpc():
             "is_finished": False}
 
 
-def extend_case(shapes, split, wrap=False, contiguous=True):
+def extend_case(shapes, split, wrap=False, contiguous=True, prop="C06"):
     """shapes: per link (nE, nH, nC); split: list of lists of link indices (1-based) = successive extend calls"""
     n = len(shapes)
     links = [dummy_link()]
@@ -181,7 +181,10 @@ def extend_case(shapes, split, wrap=False, contiguous=True):
         ]
     else:
         claims = [Claim("a non-contiguous route is rejected with an error", lambda c: False, when="ok", role="non_contiguous_rejected"), Claim("no_panic", None, when="nopanic")]
-    return Case(f"extend_{shp}_{tag}_{'wrap' if wrap else 'nowrap'}_{'contig' if contiguous else 'broken'}", "C06", "PathTpc", new_path_tpc(), calls, assume, claims,
+    if prop == "C07":
+        # what the resistance model (C07) relies on: cumulative elevation and cumulative curve resistance are the running integrals of the track's coefficients
+        claims = [*coeff_claims("grades", 1, "grades"), *coeff_claims("curves", 2, "curves"), Claim("no_panic", None, when="nopanic")]
+    return Case(f"extend_{shp}_{tag}_{'wrap' if wrap else 'nowrap'}_{'contig' if contiguous else 'broken'}", prop, "PathTpc", new_path_tpc(), calls, assume, claims,
                 bounds={"links": n, "points per link (elevs, headings, catenary)": shapes, "extend calls": split, "heading wrap-around": wrap},
                 expect_ok=contiguous, max_paths=20000, timeout_ms=60000, check_side=True,
                 notes=["one-call and link-by-link builds are checked against the same full functional specification, hence against each other"])
